@@ -40,6 +40,8 @@ CLAIMED = {
          "For every function that tests the tag of a NumTypeEnclosure (the running sum/min/max representation) the check shows on all paths that each member is read only where the tag is known to select it, so merges between integer and float partial aggregates cannot drop the accumulated part; the pre-computed statistics fast path is shown to be gated on the conditions under which it is exact. Numeric results, bucket boundaries and per-measure slot bookkeeping are not decided."),
  "C05": ("§3 C05", "static analysis: collection of every comparator function value from the sort/merge call sites and static call-graph reachability to tolerance-equality functions (recognised by their |a-b| < eps shape), use-site analysis of the raw end time in Searcher.fetchRRCs (clamp operands / sort-mode dominance)",
          "All 90+ ordering functions of the repository are collected from their call sites and shown not to reach a tolerance equality, the structural cause of out-of-order neighbours for close values; the two sort paths are shown to share one comparison; the newest-first streaming search is shown to release records only up to the segment cut-off on every time-ordered path. The merge of overlapping blocks, limits and pagination as outcomes are not decided."),
+ "C06": ("§3 C06", "static analysis: receiver-rooted field read/write sets over the static call cone of Process/Rewind for every implementation of the processor interface (found with types.Implements), categories derived from GetFinalResultIfExists and Rewind, path rule on the CachedStream invariant, structural comparison of constructor flag expressions",
+         "For all 27 pipeline processors the check shows that every piece of cross-batch state kept by Process is re-initialised by Rewind (or the command replays a cached final result / is the two-pass accumulator itself), which is the precondition for a two-pass command downstream to see the same input twice; that leftover rows handed back to a cached stream un-exhaust it; and that two-pass commands are constructed as bottlenecks. The commands' semantics and chunking independence as an outcome are not decided."),
 }
 
 NOT_APPLICABLE = {
